@@ -11,6 +11,7 @@ import (
 	"ergo.services/ergo/act"
 	"ergo.services/ergo/gen"
 	"ergo.services/ergo/lib"
+	"ergo.services/ergo/net/edf"
 )
 
 // C14 part 3 — two real in-process nodes over loopback TCP with observer actors.
@@ -305,6 +306,18 @@ type c14Scen struct {
 	Rel      string `json:"relation"`    // link | monitor
 	Fault    string `json:"fault"`       // terminate | cut | stop
 	Distinct bool   `json:"creations_differ"`
+	Cached   bool   `json:"cached_name,omitempty"` // the name of the target is in the atom cache both nodes exchanged (edf.RegisterAtom before connecting)
+}
+
+// names registered as atoms before any node of this harness connects: a frame about one of them carries the cache id
+var c14cachedOnce sync.Once
+var c14cachedNext int
+
+const c14cachedN = 16
+
+func c14cachedName() gen.Atom {
+	c14cachedNext++
+	return gen.Atom(fmt.Sprintf("c14cached%d", c14cachedNext%c14cachedN))
 }
 
 // notification classification: returns (kind "exit"/"down", reason) when m is the notification about target t
@@ -364,6 +377,9 @@ func c14runScenario(p *c14pair, sc c14Scen) c14result {
 	case "name":
 		nm := gen.Atom(fmt.Sprintf("c14name%d", c14seq))
 		c14seq++
+		if sc.Cached {
+			nm = c14cachedName()
+		}
 		if !c14do(p.b, tp, step, func(a *c14actor) { setupErr = a.RegisterName(nm) }) {
 			res.inconclusive = "target did not run the command"
 			return res
@@ -379,6 +395,9 @@ func c14runScenario(p *c14pair, sc c14Scen) c14result {
 	case "event":
 		nm := gen.Atom(fmt.Sprintf("c14event%d", c14seq))
 		c14seq++
+		if sc.Cached {
+			nm = c14cachedName()
+		}
 		if !c14do(p.b, tp, step, func(a *c14actor) { _, setupErr = a.RegisterEvent(nm, gen.EventOptions{}) }) {
 			res.inconclusive = "target did not run the command"
 			return res
@@ -902,6 +921,11 @@ func c14raceWitness(c *Ctx, p *c14pair, link bool) {
 
 func c14Nodes(c *Ctx) {
 	r := c.R
+	c14cachedOnce.Do(func() {
+		for i := 0; i < c14cachedN; i++ {
+			edf.RegisterAtom(gen.Atom(fmt.Sprintf("c14cached%d", i)))
+		}
+	})
 	kinds := []string{"pid", "name", "alias", "event", "node"}
 	rels := []string{"link", "monitor"}
 	run := func(p *c14pair, sc c14Scen) bool {
@@ -942,10 +966,13 @@ func c14Nodes(c *Ctx) {
 			for _, k := range kinds {
 				for _, rel := range rels {
 					if k != "node" {
-						scs = append(scs, c14Scen{k, rel, "terminate", ca != cb})
+						scs = append(scs, c14Scen{k, rel, "terminate", ca != cb, false})
 					}
-					scs = append(scs, c14Scen{k, rel, "cut", ca != cb})
-					scs = append(scs, c14Scen{k, rel, "cutB", ca != cb})
+					scs = append(scs, c14Scen{k, rel, "cut", ca != cb, false})
+					scs = append(scs, c14Scen{k, rel, "cutB", ca != cb, false})
+					if k == "name" || k == "event" {
+						scs = append(scs, c14Scen{k, rel, "terminate", ca != cb, true})
+					}
 				}
 			}
 			for i := len(scs) - 1; i > 0; i-- {
@@ -964,7 +991,7 @@ func c14Nodes(c *Ctx) {
 			}
 			// the last scenario of a pair stops B
 			k, rel := kinds[c.Rng.Intn(len(kinds))], rels[c.Rng.Intn(2)]
-			run(p, c14Scen{k, rel, "stop", ca != cb})
+			run(p, c14Scen{k, rel, "stop", ca != cb, false})
 			p.stop()
 		}
 	}
